@@ -847,8 +847,8 @@ pub fn run(ctx: &RunCtx) -> Report {
     let mut report = run_sharded_report(ctx, "model_checking", n, &[]);
     report.set("exhaustive", report.get_count("roots_capped") == 0);
     report.set("depth", ctx.tier.pick(2u64, 3));
-    // BFS order: a root which hit its state cap has all of its states of the previous depth expanded
-    report.set("depth_fully_covered_for_every_root", if report.get_count("roots_capped") == 0 { ctx.tier.pick(2u64, 3) } else { ctx.tier.pick(1u64, 2) });
+    // BFS order: every transition out of a root is always executed; a root which hit its state cap stopped somewhere in depth 2
+    report.set("depth_fully_covered_for_every_root", if report.get_count("roots_capped") == 0 { ctx.tier.pick(2u64, 3) } else { 1 });
     report.set("state_cap_per_root", ctx.tier.pick(400u64, 3000));
     report.set(
         "rule",
